@@ -1,9 +1,9 @@
 #include "lib.h"
-static MODULE* mods[20][2][2];
+static MODULE* mods[20][2][N_DISP];
 const MODULE* get_module(uint64_t N, MODULE_TYPE type, int native) {
   unsigned k = ilog2(N);
   int t = (type == NTT120);
-  native = !!native;
+  native &= 3;
   if (!mods[k][t][native]) {
     int saved = g_dispatch_native;
     set_dispatch(native);
@@ -15,7 +15,7 @@ const MODULE* get_module(uint64_t N, MODULE_TYPE type, int native) {
 void drop_modules(void) {
   for (int k = 0; k < 20; k++)
     for (int t = 0; t < 2; t++)
-      for (int n = 0; n < 2; n++)
+      for (int n = 0; n < N_DISP; n++)
         if (mods[k][t][n]) {
           // delete_module_info consults CPU_SUPPORTS: restore the creation-time configuration
           int saved = g_dispatch_native;
